@@ -1151,6 +1151,20 @@ func nilRange() func() (Value, Value, bool) {
 	}
 }
 
+// intRange is the iterator of "for i := range n" over an integer n: i counts from
+// 0 to n-1 and has the type of n (int for an untyped constant).
+func intRange(n Value) func() (Value, Value, bool) {
+	t, limit, i := n.assign(TypeNil).t, int(n.num), 0
+	return func() (Value, Value, bool) {
+		if i >= limit {
+			return Nil(), Nil(), false
+		}
+		k := Value{t: t, num: float64(i)}
+		i++
+		return k, Nil(), true
+	}
+}
+
 func newNext(next func() (Value, Value, bool)) Value {
 	return Value{t: typeNext, value: &nextT{next: next}}
 }
